@@ -48,9 +48,9 @@ CLAIMED.update({
  "C11": dict(technique="TLA+ spec Zooming.tla model-checked with TLC on lattice partitions (coverage invariant under every split and hand-over) + TLC trace validation of the arm table of real runs",
              text="TLC explores a lattice model (midpoint binary 1-D/2-D, K-ary, random cuts, dimension-wise binary) over all reward sequences, all maximal-index arms, all splits and all admissible hand-overs with 'every leaf is the cell of exactly one arm that lies inside it' as invariant; Trace_Zoom validates real runs call by call: played arm in Playable, only its statistics change and equal its own history, refinement iff the radius rule (fixed-point band aside), the arm to exactly one containing child and a fresh centre arm for every other child, coverage after every call.",
              note="Index and radius comparisons in fixed point (2^-11) with a 6-unit band in which either outcome is accepted; containment/coverage exact (rank coded).", ref="5/C11"),
- "C13": dict(technique="TLA+ spec VROOM.tla (rank permutation / order, probability law, credited path) checked by TLC trace validation of real runs after every pull and reward",
+ "C13": dict(technique="TLA+ spec VROOM.tla model-checked with TLC (MC_VROOM: every ranking, drawn cell and descent) + replay of its behaviours with scripted NumPy sampling + TLC trace validation of real runs after every pull and reward",
              text="For every pull of real VROOM runs TLC checks that the ranks of each depth are a permutation sorted by the lower confidence value recomputed in TLA+ fixed point, that prob*h*rank = 1/C for every cell and the vector sums to one, and for every reward that the credited cells form a descending path from a ranked cell to the depth cap containing every expansion of the round and the returned point.",
-             note="No generative model (it would restate the sort); np.random.choice is trusted to honour the vector.  Band of 6 units (2^-12) on the order test.", ref="5/C13"),
+             note="np.random.choice is trusted to honour the vector.  Band of 6 units (2^-12) on the order test.", ref="5/C13"),
  "C14": dict(technique="TLA+ spec MC_Schedule (interleavings of two protocol automata) enumerated/simulated by TLC, executed on real instances; lock-step trace comparison by TLC (Trace_Pair); domain-unchanged clause of Trace_Session",
              text="TLC enumerates all interleavings of two short sessions and simulates long ones; each is executed with two real instances whose traces must equal their solo traces event by event; every algorithm is also run in two fresh interpreters with different PYTHONHASHSEED and compared; the user's domain list must be deep-equal afterwards.",
              note="Isolation part on partitions that do not consume the shared NumPy stream meaningfully (1-D), as the property states.  Comparison on points, cells and structural events.", ref="5/C14"),
